@@ -145,8 +145,8 @@ def run(case, ctx, rng):
         ws = [rng.randint(1, case['wmax']) for _ in range(n)]
         if case['dup'] and n >= 2:
             ws[-1] = ws[0]
-        pk = ['int', 'str', 'mixed', 'dict', 'complex', 'int'][(n + case['wmax']) % 6]          # payloads are arbitrary objects
-        pay = {'int': lambda i: i, 'str': lambda i: 'item%d' % i, 'mixed': lambda i: i if i % 2 else 'item%d' % i, 'dict': lambda i: {'id': i}, 'complex': lambda i: complex(i, 1)}[pk]
+        pk = ['int', 'str', 'mixed', 'dict', 'complex', 'same'][(n + case['wmax']) % 6]          # payloads are arbitrary objects; 'same': equal couples occur several times
+        pay = {'int': lambda i: i, 'str': lambda i: 'item%d' % i, 'mixed': lambda i: i if i % 2 else 'item%d' % i, 'dict': lambda i: {'id': i}, 'complex': lambda i: complex(i, 1), 'same': lambda i: 'x'}[pk]
         items = [(pay(i), w) for i, w in enumerate(ws)]
         def sub_collection(r):
             # every returned couple is one of the items, no item used more often than it occurs
